@@ -150,6 +150,7 @@ R = {
     "prov_rdkit_source": tiered(round7.prov_rdkit_source),
     "det_level_state": tiered(round7.det_level_state),
     "idx_branch_stop": tiered(round7.idx_branch_stop),
+    "exc_cast_spellings": tiered(round7.exc_cast_spellings),
     "sent_numeric_attrs": tiered(extra.sent_numeric_attrs),
     "ord_complete_loops": tiered(extra.ord_complete_loops),
     "own_mutable_defaults_layout": named("own_mutable_defaults_layout", own.own_mutable_defaults, "quick", tuple(own.SKIP_MODULES), 2),
@@ -363,6 +364,7 @@ _ROUND7 = {
     "prov_rdkit_source": (["C18"], {"PROV.rdkit-source": 2}),
     "det_level_state": (["C06", "C02", "C10"], {"DET.level-state": 1}),
     "idx_branch_stop": (["C04"], {"IDX.branch-stop": 1}),
+    "exc_cast_spellings": (["C14"], {"EXC.cast-spellings": 1}),
     # a `.` in front of one ring marker is the order of that ring bond only (zero-order ring bonds attach virtual nodes: C11)
     "ring_marker_text": (["C11"], {"TOK.ring-marker-text": 1}),
 }
